@@ -27,7 +27,25 @@ type c20Case struct {
 	Final  string   // Close | CloseNow
 	Repeat int
 	Echo   string // how the peer answers a Close frame: echo | none | invalid
+	// ViaNetConn: NetConn gets an application-defined parent context (for which context.WithCancel needs
+	// a goroutine of its own per derived context), and the user's final call is the net.Conn's Close.
+	ViaNetConn bool
 }
+
+// appContext is a context.Context that the context package does not know: a framework's own type.
+type appContext struct{ done chan struct{} }
+
+func (appContext) Deadline() (time.Time, bool) { return time.Time{}, false }
+func (c appContext) Done() <-chan struct{}     { return c.done }
+func (c appContext) Err() error {
+	select {
+	case <-c.done:
+		return context.Canceled
+	default:
+		return nil
+	}
+}
+func (appContext) Value(any) any { return nil }
 
 var c20Ops = []string{"read", "write", "ping", "closeread", "netconn-rw", "netconn-deadline", "abandon-reader", "abandon-writer", "wsjson-write", "wsjson-read", "write-big"}
 var c20Endings = []string{"close", "closenow", "peer-close", "violation", "read-limit", "ctx-expiry", "transport-eof", "transport-reset", "transport-cut-midframe", "peer-flood"}
@@ -79,12 +97,18 @@ func runC20Once(t fataler, c c20Case, iter int) string {
 	}
 	p.start(e)
 	base := context.Background()
+	var ncParent context.Context = base
+	if c.ViaNetConn {
+		app := appContext{done: make(chan struct{})} // lives as long as the "application": longer than this connection
+		ncParent = app
+	}
 	closeReadOn := false
 	var nc interface {
 		Read([]byte) (int, error)
 		Write([]byte) (int, error)
 		SetDeadline(time.Time) error
 		SetReadDeadline(time.Time) error
+		Close() error
 	}
 	var pending []<-chan struct{}
 	do := func(f func()) {
@@ -137,13 +161,13 @@ func runC20Once(t fataler, c c20Case, iter int) string {
 			}
 		case "netconn-rw":
 			if nc == nil {
-				nc = websocket.NetConn(base, conn, websocket.MessageBinary)
+				nc = websocket.NetConn(ncParent, conn, websocket.MessageBinary)
 			}
 			p.send(ref.Frame{Fin: true, Opcode: ref.OpBinary, Payload: []byte("to netconn")})
 			do(func() { nc.Read(make([]byte, 4)); nc.Write([]byte("from netconn")) })
 		case "netconn-deadline":
 			if nc == nil {
-				nc = websocket.NetConn(base, conn, websocket.MessageBinary)
+				nc = websocket.NetConn(ncParent, conn, websocket.MessageBinary)
 			}
 			nc.SetDeadline(time.Now().Add(time.Duration(i+1) * 100 * time.Millisecond))
 			e.sleep(time.Duration(i+2) * 100 * time.Millisecond)
@@ -246,6 +270,10 @@ func runC20Once(t fataler, c c20Case, iter int) string {
 	e.sleep(time.Duration(iter%3) * time.Second)
 	// --- the user closes, as every user must ---
 	closed := e.Call(func() {
+		if c.ViaNetConn && nc != nil {
+			nc.Close() // the net.Conn's own Close: it ends the connection and everything NetConn started
+			return
+		}
 		switch c.Final {
 		case "Close":
 			conn.Close(websocket.StatusNormalClosure, "")
@@ -294,9 +322,10 @@ func TestC20(t *testing.T) {
 		c.Final = rapid.SampledFrom([]string{"Close", "Close", "CloseNow", "CloseNow", "Close-badcode", "Close-longreason"}).Draw(rt, "final")
 		c.Repeat = rapid.SampledFrom([]int{20, 50}).Draw(rt, "repeat")
 		c.Echo = rapid.SampledFrom([]string{"echo", "echo", "none", "invalid"}).Draw(rt, "peerEcho")
+		c.ViaNetConn = rapid.IntRange(0, 2).Draw(rt, "viaNetConn") == 0
 		var msg string
 		rapid.SyncTest(rt, func(rt *rapid.T) {
-			before := len(libGoroutines())
+			before, total := len(libGoroutines()), runtime.NumGoroutine()
 			for it := 0; it < c.Repeat && msg == ""; it++ {
 				msg = runC20Once(rt, c, it)
 			}
@@ -305,9 +334,17 @@ func TestC20(t *testing.T) {
 					msg = fmt.Sprintf("library goroutines before the first repetition: %d, after the last: %d", before, after)
 				}
 			}
+			if msg == "" {
+				synctest.Wait()
+				// every goroutine of the harness has been joined: what is left over was started on
+				// behalf of the library (e.g. by the context package for a context the library derived)
+				if now := runtime.NumGoroutine(); now > total {
+					msg = fmt.Sprintf("goroutines in the process before the first repetition: %d, after the last: %d (%d left behind by %d connections)", total, now, now-total, c.Repeat)
+				}
+			}
 		})
 		nt := hasCR || (c.Ending != "close" && c.Ending != "closenow")
-		rec.Case(nt, fmt.Sprintf("%s|%v|%s|%s|%s", c.Mode.Name, c.Ops, c.Ending, c.Final, c.Echo), "ending:"+c.Ending, "final:"+c.Final, fmt.Sprintf("closeread:%v", hasCR), "peer-echo:"+c.Echo)
+		rec.Case(nt, fmt.Sprintf("%s|%v|%s|%s|%s|%v", c.Mode.Name, c.Ops, c.Ending, c.Final, c.Echo, c.ViaNetConn), "ending:"+c.Ending, "final:"+c.Final, fmt.Sprintf("closeread:%v", hasCR), "peer-echo:"+c.Echo)
 		rec.Evals(int64(c.Repeat - 1))
 		if rec.WantSample() {
 			rec.Sample(fmt.Sprintf("%+v", c))
